@@ -79,8 +79,11 @@ var typeError = reflect.TypeOf((*error)(nil)).Elem()
 
 func newYarnSpinnerFunction(function any) (YarnSpinnerFunction, error) {
 	functionType := reflect.TypeOf(function)
-	if functionType.Kind() != reflect.Func {
+	if functionType == nil || functionType.Kind() != reflect.Func {
 		return nil, fmt.Errorf("newYarnSpinnerFunction expects an argument which is a function")
+	}
+	if reflect.ValueOf(function).IsNil() {
+		return nil, fmt.Errorf("newYarnSpinnerFunction expects a non-nil function")
 	}
 
 	returnSignature, err := checkFunctionOutputParameters(functionType)
@@ -228,7 +231,8 @@ func createInputConverter(functionType reflect.Type) (func([]*variable.Value) ([
 			if err != nil {
 				return nil, fmt.Errorf("failed to convert argument number %d: %w", i, err)
 			}
-			inputParameters = append(inputParameters, inputParameter)
+			// the declared type may be a named type of the supported kind
+			inputParameters = append(inputParameters, inputParameter.Convert(functionType.In(i)))
 		}
 
 		return inputParameters, nil
@@ -262,15 +266,16 @@ func createVariadicInputConverter(functionType reflect.Type) (func([]*variable.V
 			if err != nil {
 				return nil, fmt.Errorf("failed to convert argument number %d: %w", i, err)
 			}
-			inputParameters = append(inputParameters, inputParameter)
+			inputParameters = append(inputParameters, inputParameter.Convert(functionType.In(i)))
 		}
 
+		variadicArgsType := functionType.In(numIn - 1).Elem()
 		for i := numIn - 1; i < len(args); i++ {
 			inputParameter, err := variadicArgsConverter(args[i])
 			if err != nil {
 				return nil, fmt.Errorf("failed to convert argument number %d: %w", i, err)
 			}
-			inputParameters = append(inputParameters, inputParameter)
+			inputParameters = append(inputParameters, inputParameter.Convert(variadicArgsType))
 		}
 
 		return inputParameters, nil
